@@ -10,7 +10,15 @@ pub struct VecDeque<T> {
 }
 
 fn empty_arr<T>() -> [Option<T>; CAP] {
-    core::array::from_fn(|_| None)
+    // explicit literal: `core::array::from_fn` / `[const { None }; CAP]` make Kani 0.68 report a
+    // spurious "pointer outside object bounds" for some niche-encoded element types
+    // (e.g. Option<(ParameterId, ParameterValue)>)
+    #[cfg(feature = "cap4")]
+    return [None, None, None, None];
+    #[cfg(all(feature = "cap6", not(feature = "cap4")))]
+    return [None, None, None, None, None, None];
+    #[cfg(not(any(feature = "cap4", feature = "cap6")))]
+    return [None, None, None, None, None, None, None, None];
 }
 
 /// Store into a slot that the model invariant guarantees to be empty, without emitting drop glue
@@ -587,5 +595,34 @@ impl<'a, T> IntoIterator for &'a mut VecDeque<T> {
     type IntoIter = IterMut<'a, T>;
     fn into_iter(self) -> IterMut<'a, T> {
         self.iter_mut()
+    }
+}
+
+// ---- appended for IndexDeque::{iter_mut,enumerate_mut} (need DoubleEndedIterator + ExactSizeIterator) ----
+// The cells still held by `inner` are exactly the array indices [pos, pos + inner.len()).
+impl<'a, T> DoubleEndedIterator for IterMut<'a, T> {
+    fn next_back(&mut self) -> Option<&'a mut T> {
+        // loop-free: jump over the cells at or beyond `end` in one step (slice iterators do
+        // `nth_back` by pointer arithmetic), then hand out the cell if it is still >= start.
+        let rem_end = self.pos + self.inner.len();
+        let skip = if rem_end > self.end { rem_end - self.end } else { 0 };
+        if rem_end <= skip {
+            return None;
+        }
+        let p = rem_end - 1 - skip; // index of the cell that nth_back(skip) yields
+        if p < self.start || p < self.pos {
+            return None;
+        }
+        let slot = self.inner.nth_back(skip)?;
+        slot.as_mut()
+    }
+}
+
+impl<'a, T> ExactSizeIterator for IterMut<'a, T> {
+    fn len(&self) -> usize {
+        let lo = if self.pos > self.start { self.pos } else { self.start };
+        let rem_end = self.pos + self.inner.len();
+        let hi = if rem_end < self.end { rem_end } else { self.end };
+        if hi > lo { hi - lo } else { 0 }
     }
 }
